@@ -60,6 +60,25 @@ func idxString(class string, k int) string {
 		return "٠٥" // arabic-indic digits 0 and 5
 	case "fullwidth":
 		return "０５"
+	// single characters whose UTF-8 encoding is two bytes long
+	case "arabic1":
+		return "٧" // U+0667, a decimal digit
+	case "persian1":
+		return "۵" // U+06F5, a decimal digit
+	case "nko1":
+		return "߃" // U+07C3, a decimal digit
+	case "latin1":
+		return "é"
+	case "plus":
+		return "+5"
+	case "dot":
+		return "5."
+	case "hex":
+		return "0x"
+	case "exp":
+		return "1e"
+	case "newline":
+		return "5\n"
 	}
 	return class
 }
@@ -213,7 +232,8 @@ func (s *session) socketRun(w *rec.Writer) error {
 	s.log = &rec.Buf{}
 	s.ev("Begin", "plugins", 0, "callers", 0, "timeout_ms", int(regTimeout.Milliseconds()))
 	for _, um := range []int{0, 0o022, 0o077, 0o007} {
-		for _, disabled := range []bool{false, true} {
+		for _, mode := range []string{"enabled", "disabled-last", "disabled-first"} {
+			disabled := mode != "enabled"
 			root, err := os.MkdirTemp("", "vsock")
 			if err != nil {
 				return err
@@ -224,8 +244,12 @@ func (s *session) socketRun(w *rec.Writer) error {
 				adaptation.WithPluginPath(filepath.Join(root, "plugins")),
 				adaptation.WithPluginConfigPath(filepath.Join(root, "conf")),
 			}
-			if disabled {
+			// the options are independent of each other: their order must not matter
+			switch mode {
+			case "disabled-last":
 				opts = append(opts, adaptation.WithDisabledExternalConnections())
+			case "disabled-first":
+				opts = append([]adaptation.Option{adaptation.WithDisabledExternalConnections()}, opts...)
 			}
 			ad, err := adaptation.New("verif", "1", func(ctx context.Context, cb adaptation.SyncCB) error {
 				_, e := cb(ctx, nil, nil)
@@ -253,7 +277,7 @@ func (s *session) socketRun(w *rec.Writer) error {
 			if c != nil {
 				c.Close()
 			}
-			s.ev("socket.check", "umask", um, "disabled", disabled, "modes", modes, "exists", statErr == nil, "dial_ok", dialErr == nil)
+			s.ev("socket.check", "umask", um, "disabled", disabled, "options", mode, "modes", modes, "exists", statErr == nil, "dial_ok", dialErr == nil)
 			ad.Stop()
 			os.RemoveAll(root)
 		}
